@@ -110,6 +110,7 @@ BOXES = [(0.0, 1.0, 0.0, 1.0), (-1.0, 1.0, -1.0, 1.0), (-3.0, 3.0, -3.0, 3.0), (
 
 # non-default minimum bin sizes / derivative (width and height deliberately different)
 MINS = {"linear": [None],
-        "quadratic": [None, dict(min_bin_width=0.02, min_bin_height=0.005)],
+        "quadratic": [None, dict(min_bin_width=0.02, min_bin_height=0.005), dict(min_bin_width=0.002, min_bin_height=0.05)],
         "cubic": [None, dict(min_bin_width=0.02, min_bin_height=0.005), dict(min_bin_width=0.002, min_bin_height=0.03)],
-        "rq": [None, dict(min_bin_width=0.02, min_bin_height=0.005, min_derivative=0.05)]}
+        "rq": [None, dict(min_bin_width=0.02, min_bin_height=0.005, min_derivative=0.05),
+               dict(min_bin_width=0.001, min_bin_height=0.06, min_derivative=0.01)]}     # both orders: height minimum below / above the width minimum
